@@ -1427,7 +1427,7 @@ def entry_reaches_writer_rule(crate, prop, rule="C11.R10"):
 def normalisation_owner_rule(crate, prop, rule="C17.R9"):
     """`..` is resolved in one place, which also rejects a path that climbs above the root"""
     r = Result(rule, "path components are taken apart (components / pop / push of single components) only inside export::path and import_path: no other function resolves `.`/`..` on its own, so every path reaches path::absolute with its `..` still in it and the root check cannot be bypassed")
-    OWNERS = ("export::path::", "export::import_path")
+    OWNERS = ("export::path::", "export::import_path") + tuple(sorted(crate.owned_by("export::import_path")))      # and what import_path was split into
     n = 0
     for b in crate.bodies:
         p0 = re.sub(r"::\{closure#\d+\}", "", b.path)
@@ -1453,7 +1453,7 @@ def normalisation_owner_rule(crate, prop, rule="C17.R9"):
 def import_prefix_rule(crate, prop, rule="C03.R9"):
     """`./x` and `.x` differ by more than a character: the second is a bare module specifier"""
     r = Result(rule, "import_path decides on the `./` prefix by looking at the first *component* of the relative path (a normal component gets `./`, `..` does not), not at the first character of its text: a directory called `.internal` is a normal component")
-    b = crate.body("export::import_path")
+    b = crate.ibody("export::import_path")
     if b is None:
         r.fail(prop, "anchor-missing import_path", "not found")
         return r
@@ -1461,7 +1461,9 @@ def import_prefix_rule(crate, prop, rule="C03.R9"):
     textual = [(blk, t) for blk, t in b.calls() if not b.is_cleanup(blk) and fn_matches(t, r"str::<impl str>::starts_with$", r"str::<impl str>::strip_prefix$")
                and ((op_const(t["args"][1]) or {}).get("str") in (".", "..", "../") or (op_const(t["args"][1]) or {}).get("char") == "." or "'.'" in json.dumps(t["args"][1]))]
     r.inst(fn=b.path, inspects_first_component=bool(comp), textual_dot_tests=len(textual))
-    if not comp or textual:
+    if not comp and not textual:
+        r.fail(prop, "anchor-missing prefix decision in import_path", "neither a look at the first component nor a test of the text found", b.file(), b.line())
+    elif textual:
         f, l = M.user_span(textual[0][1]["span"]) if textual else (b.file(), b.line())
         r.fail(prop, "import-prefix-by-text export::import_path",
                "the `./` prefix is decided from the text of the path (starts with `.`): a dependency in a dot-named directory (`.internal/Hidden.ts`) is imported as `\".internal/Hidden\"`, a bare specifier that names no file the export wrote", f, l)
